@@ -26,6 +26,8 @@ use solve::solve_ivp_py;
 #[pymodule]
 pub fn ivp(m: &Bound<'_, PyModule>) -> PyResult<()> {
     m.add_function(wrap_pyfunction!(solve_ivp_py, m)?)?;
+    #[cfg(ivp_verif)]
+    m.add_function(wrap_pyfunction!(sparsity::_verif_group_columns, m)?)?;
 
     m.setattr(
         "__doc__",
